@@ -1728,7 +1728,7 @@ class Interp:
         return self.block(e, env)
 
     def e_Closure(self, e, env, **kw):
-        return ('closure', e, env.child(), self.frame['mod'])
+        return ('closure', e, env.child(), self.frame['mod'], self.frame['callee'])
 
     def e_Return(self, e, env, **kw):
         v = self.expr(e['expr'], env) if e['expr'] else ('tuple', [])
@@ -1822,6 +1822,11 @@ class Interp:
                 self.effect_at(full, 'diverge', what=v[1], line=v[2])
             arms.append((c, v))
             prior.append(c)
+        if s[0] == 'mcall' and s[2] == 'try_into' and not s[3] and len(arms) == 2 and arms[1][1][0] == 'diverge' and arms[1][1][1] in ('panic', 'unreachable') and \
+                arms[0][1][0] == 'call' and arms[0][1][1] == 'Literal::usize_unsuffixed' and arms[0][1][2] == [('unwrap', s)]:
+            # `match v.try_into() { Ok(v) => Literal::usize_unsuffixed(v), Err(_) => panic!(..) }`: the checked form of `v as usize` (the literal
+            # takes a usize, so that is what the conversion targets); the panic on overflow is recorded above
+            return ('call', 'Literal::usize_unsuffixed', [('cast', s[1], 'usize')])
         return ('alt', arms)
 
     def assigned_locals(self, node, out):
@@ -2467,7 +2472,8 @@ class Interp:
 
     def apply(self, clo, args):
         """apply a closure term to argument terms"""
-        _, node, cenv, mod = clo
+        _, node, cenv, mod = clo[:4]
+        creator = clo[4] if len(clo) > 4 else None
         env = cenv.child()
         conds = []
         for p, a in zip(node['params'], args):
@@ -2477,6 +2483,11 @@ class Interp:
         fr = self.frame
         saved_mod = fr['mod']
         fr['mod'] = mod
+        # what the closure's body does belongs to the function that wrote it (its templates, the calls it makes), not to the helper that applies it
+        # (`stage_entries(module, stage, |entry_point| ..)`) - the compiler, too, attributes a closure to its creator
+        saved_callee = fr['callee']
+        if creator is not None and creator in self.c.fns:
+            fr['callee'] = creator
         # closures have their own `return`/`?` scope
         saved_for, fr['for_ids'] = fr.get('for_ids', []), []
         saved_returns, saved_n0 = fr['returns'], fr.get('nconds0', 0)
@@ -2489,6 +2500,7 @@ class Interp:
         fr['returns'], fr['nconds0'] = saved_returns, saved_n0
         fr['for_ids'] = saved_for
         fr['mod'] = saved_mod
+        fr['callee'] = saved_callee
         return v
 
     LIST_MUTATORS = ('pop', 'swap', 'swap_remove', 'drain', 'split_off', 'rotate_left', 'rotate_right', 'fill', 'resize', 'append', 'retain_mut',
